@@ -110,15 +110,19 @@ theorem step_rej (l : Lang) (s : Scanner) (pos : Nat) (r r' b2 : DS) (q : List W
   cases st2 with
   | none => exact ⟨_, rfl, rfl, hq2, t1⟩
   | some e2 =>
-    refine ⟨_, rfl, ?_⟩
-    dsimp only
-    obtain ⟨o1, o2, o3⟩ := outside_same (scanCfg l zeroThr)
-      ({ parser := { int := b2 }, tracker := s.tracker.numberEnd r'.isOrdinal text val false,
-         previous := s.previous } : Scanner) (EnExt.wt w)
-    refine ⟨?_, ?_, ?_⟩
-    · exact o1
-    · exact (congrArg (List.map (·.text)) o2).trans hq2
-    · exact o3.trans t1
+    -- `Incomplete` on the fresh parser leaves the scanner as it is; any other error goes through `outside`
+    cases e2 with
+    | incomplete => exact ⟨_, rfl, rfl, hq2, t1⟩
+    | overlap | nan | frozen =>
+      refine ⟨_, rfl, ?_⟩
+      dsimp only
+      obtain ⟨o1, o2, o3⟩ := outside_same (scanCfg l zeroThr)
+        ({ parser := { int := b2 }, tracker := s.tracker.numberEnd r'.isOrdinal text val false,
+           previous := s.previous } : Scanner) (EnExt.wt w)
+      refine ⟨?_, ?_, ?_⟩
+      · exact o1
+      · exact (congrArg (List.map (·.text)) o2).trans hq2
+      · exact o3.trans t1
 
 /-- end of input with a pending integer-mode number (threshold 0): its text joins the queue -/
 theorem finalize_q (l : Lang) (s : Scanner) (r : DS) (q : List Word) (text : Word) (val : Value) (hs : SQ s r q)
